@@ -32,6 +32,7 @@ def universes(tier):
         "U8": (("q0", "q1"), space.universe(("q0", "q1"), 2, 2, [1, 200]), "u1"),
         "I1": (("q0", "q1"), space.universe(("q0", "q1"), 1, 2, [100, -100, 3]), "i1"),
         "U4": (("q0",), space.universe(("q0",), 3, 2, [1, 4000000000]), "u4"),
+        "INF": (("q0", "q1"), space.nonfinite_universe(), "f8"),
     }
     if tier == "thorough":
         u["B2"] = (("q0", "q1"), space.universe(("q0", "q1"), 2, 3, [1, -1, 2]), "i8")
